@@ -24,9 +24,13 @@ type reqPlan struct {
 	Hdr        []kv     `json:"hdr"`      // every other field line, wire order, V includes leading/trailing OWS
 	HostPos    int      `json:"host_pos"` // position of the Host line among Hdr
 	Body       bodySpec `json:"body"`
-	Expect     bool     `json:"expect"`     // carries Expect: 100-continue; the client waits (bounded) for an interim response before the body
-	FrameName  string   `json:"frame_name"` // spelling of Content-Length / Transfer-Encoding
-	FramePos   int      `json:"frame_pos"`
+	Expect     bool     `json:"expect"` // carries Expect: 100-continue; the client waits (bounded) for an interim response before the body
+	// ExpectStrict (with Expect): the client withholds the body until it has read "100 Continue"
+	// (or a final response) for this request - no timeout; the generator makes the origin script of
+	// the request answer "100 Continue" as soon as it has the request head.
+	ExpectStrict bool   `json:"expect_strict,omitempty"`
+	FrameName    string `json:"frame_name"` // spelling of Content-Length / Transfer-Encoding
+	FramePos     int    `json:"frame_pos"`
 }
 
 type interimPlan struct {
@@ -46,6 +50,9 @@ type respPlan struct {
 	HeadCL        int           `json:"head_cl"`        // Content-Length announced on a bodiless (HEAD/304) response; -1 none
 	CloseSilently bool          `json:"close_silently"` // origin closes after this response without saying so
 	TruncateAt    int           `json:"truncate_at"`    // >=0: only this many bytes of the final response are written, then the origin closes
+	// FinalDelaySec > 0: after the interim responses (and after the request body has been read) the
+	// origin pauses this many virtual seconds before it starts writing the final response.
+	FinalDelaySec int `json:"final_delay_sec,omitempty"`
 }
 
 type transportPlan struct {
@@ -73,7 +80,28 @@ type plan struct {
 	IdleAt        int           `json:"idle_at"`
 	OriginIdleSec int           `json:"origin_idle_sec"` // 0 = 60
 	T             transportPlan `json:"t"`
+	// TLS: the proxy server is configured with EnableTLS (httpproxy.TLSProxyServer) and the harness
+	// client speaks crypto/tls over the in-memory transport. ClientCert is the client-certificate
+	// class (only with TLS).
+	TLS        bool `json:"tls,omitempty"`
+	ClientCert int  `json:"client_cert,omitempty"`
 }
+
+// client-certificate classes (only meaningful with TLS)
+const (
+	certNone      = 0 // server does not ask, client offers none
+	certValid     = 1 // RequireAndVerifyClientCert, client presents a certificate of the configured CA
+	certMissing   = 2 // RequireAndVerifyClientCert, client presents no certificate
+	certUntrusted = 3 // RequireAndVerifyClientCert, client presents a certificate of another CA
+)
+
+// certRejected reports whether the TLS client can never be admitted.
+func (p *plan) certRejected() bool {
+	return p.TLS && (p.ClientCert == certMissing || p.ClientCert == certUntrusted)
+}
+
+// maxFinalDelaySec bounds FinalDelaySec: it must stay below every origin idle timeout (>= 5 s).
+const maxFinalDelaySec = 3
 
 // configured user table classes (only meaningful with AuthEnabled)
 const (
